@@ -26,6 +26,7 @@ def _pin_hash_seed():
 _pin_hash_seed()
 PHS = os.environ.get("PYTHONHASHSEED")
 
+import vcommon
 from vcommon import Prop
 import gen_c11
 
@@ -410,10 +411,42 @@ class C11(Prop):
         if tier != "thorough":
             pts = rng.sample(pts, len(pts) // 20)
         return [dict(c, phs=PHS) for c in
-                [gen_c11.small_case(s, g, rng) for s, g in pts] + gen_c11.small_seq_cases(rng, tier == "thorough")]
+                [gen_c11.small_case(s, g, rng) for s, g in pts] + gen_c11.small_seq_cases(rng, tier == "thorough")] + self.cli_cases()
 
     # -- implementation ------------------------------------------------------------------------
+    def run_cli(self, case):
+        """the command-line glue around the formatter: bin/<tool> in a scratch directory that may hold a pyproject.toml"""
+        import subprocess, tempfile, shutil
+        d = tempfile.mkdtemp(prefix="pfbc11cli_")
+        try:
+            os.mkdir(os.path.join(d, ".git"))
+            if case.get("pyproject") is not None:
+                open(os.path.join(d, "pyproject.toml"), "w").write(case["pyproject"])
+            open(os.path.join(d, "db.py"), "w").write(case.get("db", ""))
+            open(os.path.join(d, "m.py"), "w").write(case.get("text", ""))
+            env = dict(os.environ, PYTHONPATH=os.path.join(vcommon.REPO, "lib", "python"), PYFLYBY_PATH=os.path.join(d, "db.py"),
+                       PYFLYBY_LOG_LEVEL="ERROR")
+            p = subprocess.run([sys.executable, os.path.join(vcommon.REPO, "bin", case["tool"])] + list(case["args"]), cwd=d, env=env,
+                               stdout=subprocess.PIPE, stderr=subprocess.PIPE, text=True, timeout=120)
+            return dict(rc=p.returncode, out=p.stdout, err=p.stderr[-400:])
+        finally:
+            shutil.rmtree(d, ignore_errors=True)
+
+    @staticmethod
+    def cli_cases():
+        text = "from os.path import join, dirname\nimport sys, os\nprint(join, dirname, sys, os)\n"
+        out = [dict(kind="cli", tool="find-import", args=["os", "sys", "defaultdict"], db="import os\nimport sys\nfrom collections import defaultdict\n",
+                    want=[("imp", "", 0, "os", None), ("imp", "", 0, "sys", None), ("from", "collections", 0, "defaultdict", None)])]
+        for v in ("8", "[8, 40]", "true", "false", '"16"', '"24,32"'):
+            out.append(dict(kind="cli", tool="tidy-imports", args=["--print", "m.py"], text=text, db="",
+                            pyproject="[tool.pyflyby]\nalign_imports = %s\n" % v,
+                            want=[("from", "os.path", 0, "dirname", None), ("from", "os.path", 0, "join", None),
+                                  ("imp", "", 0, "os", None), ("imp", "", 0, "sys", None)]))
+        return out
+
     def run_impl(self, case):
+        if case.get("kind") == "cli":
+            return self.run_cli(case)
         if case.get("kind") == "parse":
             return dict(ast=ast_statements(case["text"]))
         phs = case.get("phs")
@@ -532,6 +565,25 @@ class C11(Prop):
 
     # -- oracle --------------------------------------------------------------------------------
     def oracle(self, case, obs):
+        if case.get("kind") == "cli":
+            if obs["rc"] != 0:
+                return [dict(what="the command-line tool failed on a valid formatting configuration", tool=case["tool"], args=case["args"],
+                             pyproject=case.get("pyproject"), rc=obs["rc"], err=obs["err"])]
+            try:
+                tree = ast.parse(obs["out"])
+            except (SyntaxError, ValueError) as e:
+                return [dict(what="output is not valid Python", tool=case["tool"], args=case["args"], err=str(e)[:120], out=obs["out"][:300])]
+            got = collections.Counter()
+            for st in tree.body:
+                if isinstance(st, ast.Import):
+                    for a in st.names:
+                        got[("imp", "", 0, a.name, a.asname)] += 1
+                elif isinstance(st, ast.ImportFrom):
+                    for a in st.names:
+                        got[("from", st.module or "", st.level, a.name, a.asname)] += 1
+            if got != collections.Counter(tuple(w) for w in case["want"]):
+                return [dict(what="re-parsed imports differ from the input set", tool=case["tool"], args=case["args"], out=obs["out"][:300])]
+            return []
         if case.get("kind") == "parse":
             return []
         if case.get("kind") == "seq":
@@ -610,6 +662,8 @@ class C11(Prop):
 
     # -- model ---------------------------------------------------------------------------------
     def model_requests(self, case, obs):
+        if case.get("kind") == "cli":
+            return []          # command-line glue: judged by the oracle only
         if case.get("kind") == "parse":
             return [dict(op="parse", text=case["text"])]
         if case.get("kind") == "seq":
@@ -678,6 +732,8 @@ class C11(Prop):
         return None
 
     def compare(self, case, obs, resps):
+        if case.get("kind") == "cli":
+            return None
         if case.get("kind") == "seq":
             return self.compare_seq(case, obs, resps)
         if case.get("kind") == "parse":
@@ -723,6 +779,8 @@ class C11(Prop):
         return None
 
     def nontrivial_key(self, case, obs):
+        if case.get("kind") == "cli":
+            return "cli" + repr(case.get("pyproject")) + case["tool"]
         if case.get("kind") == "parse":
             return None
         if case.get("kind") == "seq":
@@ -735,6 +793,8 @@ class C11(Prop):
         return None
 
     def sample_repr(self, case, obs):
+        if case.get("kind") == "cli":
+            return dict(tool=case["tool"], args=case["args"], pyproject=case.get("pyproject"), out=(obs.get("out") or "")[:200])
         if case.get("kind") == "parse":
             return dict(text=case["text"][:200], ast=str(obs.get("ast"))[:200])
         if case.get("kind") == "seq":
@@ -746,6 +806,9 @@ class C11(Prop):
         def inc(k):
             acc[k] = acc.get(k, 0) + 1
         inc("cases_from_" + case.get("_src", "?"))
+        if case.get("kind") == "cli":
+            inc("cli_cases")
+            return
         if case.get("kind") == "parse":
             inc("grammar_cases")
             inc("grammar_rejected" if isinstance(obs.get("ast"), str) else "grammar_accepted")
